@@ -180,13 +180,19 @@ def axis_param(ax, dists, used):
     if vals is None:
         return None
     vals = [float(np.ravel(v)[0]) if np.ndim(v) else float(v) for v in vals]
+    label = str(getattr(ax, "label", "") or "")
+    alias = {"defocus": ("C10", "defocus"), "semiangle_cutoff": ("semiangle_cutoff", "semiangle cutoff"), "focal_spread": ("focal_spread", "focal spread")}
+    best = None
     for i, d in enumerate(dists):
         if i in used or len(d["_values"]) != len(vals):
             continue
         dv = d["_values"]
         if np.allclose(vals, dv, rtol=1e-6, atol=1e-9) or (d["param"] == "defocus" and np.allclose(vals, [-x for x in dv], rtol=1e-6)):
-            return i
-    return None
+            # two distributions may list the same values (focal_spread 5, 25 and C12 5, 25): the axis label decides between them
+            score = 2 if label in alias.get(d["param"], (d["param"],)) else 1
+            if best is None or score > best[0]:
+                best = (score, i)
+    return None if best is None else best[1]
 
 
 def sig(sc, aspect, mode, extra=None):
@@ -230,7 +236,8 @@ def run_one(run):
         arr = oracle.to_numpy(out.array)
         axes = list(out.ensemble_axes_metadata)
         used: dict = {}
-        for ai, ax in enumerate(axes):
+        # axes whose label names a parameter are matched first, unlabelled ones take what is left
+        for ai, ax in sorted(enumerate(axes), key=lambda t: 0 if str(getattr(t[1], "label", "") or "") else 1):
             di = axis_param(ax, sc["dists"], set(used.values()))
             if di is not None:
                 used[ai] = di
